@@ -113,6 +113,16 @@ func (a *Adapter) Sample(init json.RawMessage, rng *rand.Rand, maxSteps int) (st
 	n := a.run.NThreads()
 	prio := rng.Perm(n)
 	change := map[int]bool{rng.Intn(60): true, rng.Intn(60): true}
+	// adversarial stall: one goroutine is frozen for a long stretch while the others keep running, even if all they
+	// do is spin (safety must hold under unfair prefixes too; fairness is only assumed for termination). The stall
+	// starts either at a random step or right after the goroutine won a CAS (the classic "claimed but not yet
+	// published" window); at the end of the stall the observer takes a probe-drain.
+	frozen, freezeFrom, freezeTo := -1, 0, 0
+	afterCAS := rng.Intn(2) == 0
+	if !afterCAS && rng.Intn(3) == 0 {
+		frozen, freezeFrom = rng.Intn(n), rng.Intn(25)
+		freezeTo = freezeFrom + 30 + rng.Intn(70)
+	}
 	for steps = 0; !a.run.AllDone() && steps < maxSteps; steps++ {
 		if change[steps] {
 			prio = rng.Perm(n)
@@ -126,8 +136,13 @@ func (a *Adapter) Sample(init json.RawMessage, rng *rand.Rand, maxSteps int) (st
 			return steps, false
 		}
 		var pref []int
+		inFreeze := frozen >= 0 && steps >= freezeFrom && steps < freezeTo
 		for _, t := range en {
-			if a.run.Kind(t) != "yield" {
+			if inFreeze {
+				if t != frozen {
+					pref = append(pref, t)
+				}
+			} else if a.run.Kind(t) != "yield" {
 				pref = append(pref, t)
 			}
 		}
@@ -144,9 +159,20 @@ func (a *Adapter) Sample(init json.RawMessage, rng *rand.Rand, maxSteps int) (st
 				}
 			}
 		}
-		if _, err := a.StepN(t, 1); err != nil {
+		ops, err := a.StepN(t, 1)
+		if err != nil {
 			a.flushHist()
 			return steps, false
+		}
+		if afterCAS && frozen < 0 && rng.Intn(2) == 0 {
+			for _, o := range ops {
+				if d, ok := o.([]interface{}); ok && len(d) >= 3 && d[0] == "CAS" && d[len(d)-1] == true {
+					frozen, freezeFrom, freezeTo = t, steps+1, steps+1+40+rng.Intn(80)
+					if !flags.Blocking {
+						stopAt = freezeTo - 1 - rng.Intn(4)
+					}
+				}
+			}
 		}
 		p := a.obj.Probe()
 		p["ev"] = "probe"
